@@ -160,7 +160,7 @@ def scenario(r, big):
     byz = r.choice([0, 0, n, n, r.randint(1, n)])
     honest = [o for o in range(1, n + 1) if o != byz]
     v, e = r.randint(1, nv), r.choice([1, 1, 2])
-    flavour = r.choice(["threshold", "threshold", "interleave", "all", "files", "selectors", "epochs", "chaos"])
+    flavour = r.choice(["threshold", "threshold", "interleave", "all", "files", "selectors", "epochs", "chaos", "tamper", "tamper", "squat", "retry"])
 
     def sign(op, **kw):
         sel = kw.pop("sel", r.choice(["pk", "pk", "pk", "idx", "both"]))
@@ -203,6 +203,53 @@ def scenario(r, big):
         if r.random() < 0.5:
             sc.s.append({"ev": "Status", "v": v, "st": r.choice(["active_exiting", "exited_unslashed"])})
             sc.start(r.choice(honest), "bcast", sel=r.choice(["pk", "all"]), v=v)
+    elif flavour == "tamper":
+        # enough clean partials, then every way a faulty API could hand them out
+        signers = honest[:r.choice([t, t, min(len(honest), t + 1)])]
+        for op in signers:
+            sc.start(op, "sign", run=False, sel="pk", v=v, iv=v, e=e)
+            sc.step(sc.c)
+            sc.step(sc.c)
+            sc.open.pop(sc.c, None)
+        kinds = ["blank", "drop", "droplast", "dup", "rev", "rot", "junk", "epoch", "index", "other"]
+        r.shuffle(kinds)
+        for kind in kinds[:r.randint(3, 7)]:
+            who = r.choice(honest)
+            c = sc.start(who, r.choice(["fetch", "bcast"]), run=False, sel="pk", v=v)
+            if c:
+                sc.step(c, tamper={"kind": kind})
+                sc.finish(c)
+        sc.start(r.choice(honest), "bcast", sel="pk", v=v)
+    elif flavour == "squat" and byz:
+        # the Byzantine operator is first with a partial over another exit message; the honest ones are refused until it deletes
+        sc.s.append({"ev": "Byz", "req": "post", "share": byz, "key": byz, "v": v,
+                     "blobs": [{"v": v, "e": 3 - e, "iv": r.choice([v, v, 0]), "sv": v, "sk": byz}]})
+        for op in honest[:t]:
+            sign(op, sel="pk")
+        sc.start(honest[0], "bcast", sel="pk", v=v)
+        sc.s.append({"ev": "Byz", "req": "del", "share": r.choice([byz, byz, honest[0]]), "key": byz, "v": v})
+        for op in honest[:t]:
+            sign(op, sel="pk")
+            if r.random() < 0.3:
+                sc.byz(byz)
+        sc.start(honest[0], "bcast", sel="pk", v=v)
+    elif flavour in ("retry", "squat"):
+        # a request is served but the operator is told it failed: it runs the command again
+        for op in honest:
+            c = sc.start(op, "sign", run=False, sel="pk", v=v, iv=v, e=e)
+            sc.step(c)
+            if r.random() < 0.5:
+                sc.step(c, f=r.choice(["post", "post", "pre"]), code=r.choice([500, 503, 409]))
+                sc.finish(c)
+                sign(op, sel="pk")
+            else:
+                sc.finish(c)
+            if r.random() < 0.3:
+                sc.start(op, "delete", sel="pk", v=v)
+                sign(op, sel="pk")
+        who = r.choice(honest)
+        sc.start(who, "fetch", sel="pk", v=v)
+        sc.start(who, "bcast", sel="pk", v=v)
     elif flavour == "interleave":
         # commands of several operators in flight at the same time, requests let through in a random order
         ids = []
